@@ -623,7 +623,7 @@ class TreeGen:
             bomb = st.fixed_dictionaries(
                 {"c": st.just("BombNode"), "o": self.origin(), "p": self.props("BombNode"),
                  "k": st.fixed_dictionaries({"child": opt, "items": items})})
-            opts += [bomb, bomb]
+            opts += [bomb, bomb.map(dict), bomb.map(lambda d: dict(d))]  # (distinct objects: one_of drops repeated ones)
         if self.refs:
             ref = st.integers(0, 40).map(lambda n: {"$ref": n})
             target = st.one_of(st.none(), ref, ref, st.lists(ref, min_size=1, max_size=3).map(lambda xs: {"$t": xs}))
